@@ -27,7 +27,7 @@ use vcore::{Args, Fail, Report};
 static COUNTER: AtomicU64 = AtomicU64::new(0);
 
 pub const SIG_NESTED_LIST: &str = "normalize-exception:list-of-lists-of-objects";
-pub const SIG_POINTER_ARGS: &str = "missing-data:client-pointer-selected-with-arguments";
+pub const SIG_POINTER_ARGS: &str = "missing-data:client-pointer-reader-read-with-the-parent-variables";
 pub const SIG_EMPTY_LINKED: &str = "missing-data:linked-field-without-server-selections";
 pub const SIG_OMITTED_IN_OBJECT: &str = "missing-data:null-or-omitted-variable-inside-object-argument";
 pub const SIG_ENTITY_WITHOUT_ID: &str = "missing-data:entity-also-normalized-without-its-id";
@@ -234,7 +234,7 @@ fn declares_variable_default(files: &Rendered) -> bool {
     })
 }
 
-fn refine_signature(mut f: Fail, files: &Rendered, response: &Value, ep: &EntrypointCase) -> Fail {
+fn refine_signature(mut f: Fail, files: &Rendered, response: &Value, ep: &EntrypointCase, schema: &refgql::Schema) -> Fail {
     if f.signature.starts_with("runtime-exception:normalize:Error: Unexpected missing __typename") && has_list_of_lists_of_objects(response) {
         f.signature = SIG_NESTED_LIST.into();
         return f;
@@ -247,7 +247,8 @@ fn refine_signature(mut f: Fail, files: &Rendered, response: &Value, ep: &Entryp
         f.signature = SIG_POINTER_ARGS.into();
         return f;
     }
-    if f.signature.starts_with("missing-data:") && innermost_root_is_path_based(&f.message) && response_repeats_an_entity(response) {
+    let abstract_without_id = ep.operation_text.as_deref().is_some_and(|t| respgen::operation_has_abstract_field_without_id(schema, t));
+    if f.signature.starts_with("missing-data:") && response_repeats_an_entity(response) && (innermost_root_is_path_based(&f.message) || abstract_without_id) {
         f.signature = SIG_ENTITY_WITHOUT_ID.into();
         return f;
     }
@@ -389,7 +390,7 @@ pub fn run_program(files: &Rendered, declared: &[String], rtape: &[u16], respons
                     report.label_n("component-readers-read-explicitly", answer["componentReads"].as_array().map(|a| a.len()).unwrap_or(0) as u64);
                 }
                 Err(f) => {
-                    let f = refine_signature(f, files, &response, &ep);
+                    let f = refine_signature(f, files, &response, &ep, &compiled.schema);
                     // a listed root cause must not hide an unlisted failure of the same program
                     let replace = match &res.failure {
                         None => true,
@@ -411,7 +412,7 @@ fn run_input(input: &Value) -> Result<(), Fail> {
     let compiled = compile_files(&files).unwrap_or_else(|e| vcore::inconclusive(&format!("replay: the program is not accepted any more ({e})")));
     let path = input["entrypoint"].as_str().unwrap_or_default();
     let ep = entrypoint_case(&compiled.set, path).unwrap_or_else(|e| vcore::inconclusive(&format!("replay: {}", e.0)));
-    judge(&ep, &input["response"], &input["variables"]).map(|_| ()).map_err(|f| refine_signature(f, &files, &input["response"], &ep))
+    judge(&ep, &input["response"], &input["variables"]).map(|_| ()).map_err(|f| refine_signature(f, &files, &input["response"], &ep, &compiled.schema))
 }
 
 pub fn run(args: &Args) {
